@@ -222,6 +222,16 @@ def cmdTgRender (args0 : List String) : String :=
     | some c => (intIndexGraph x (.inp 1) c).render | none => "bad-op"
   | ["ndindex", rank] => match parseNat? rank with
     | some r => (ndindexGraph x r).render | none => "bad-op"
+  | ["creation", "full_arg"] => (fullGraph (.inp 1) x).render                        -- shape = in0, fill = in1
+  | ["creation", "full_static", shape] => match parseNatList shape with
+    | some sh => (fullGraph x (ivec (sh.map Int.ofNat))).render | none => "bad-op"    -- fill = in0
+  | ["creation", "full_like"] => (fullGraph (.inp 1) (.shape x)).render              -- x = in0, fill = in1
+  | ["creation", "const_arg", v, dt] => match parseInt? v, parseNat? dt with
+    | some v, some dt => (constFillGraph v x dt).render | _, _ => "bad-op"            -- shape = in0
+  | ["creation", "const_like", v, dt] => match parseInt? v, parseNat? dt with
+    | some v, some dt => (constFillGraph v (.shape x) dt).render | _, _ => "bad-op"   -- x = in0
+  | ["creation", "arange", start, step, dt] => match parseInt? start, parseInt? step, parseNat? dt with
+    | some a, some st, some dt => (arangeGraph a x st dt).render | _, _, _ => "bad-op"   -- stop = in0
   | ["trilu", t, upper, k] => match parseNat? t, parseInt? k with
     | some t, some k => (triluGraph x t (upper == "1") k).render | _, _ => "bad-op"
   | ["broadcast_arrays", t, n, i] => match parseNat? t, parseNat? n, parseNat? i with
